@@ -13,7 +13,7 @@ import (
 
 func spec_handler6_ok(h *Handler6) bool {
 	return h != nil && h.session != nil && packet.VerifSpecSessionOK(h.session) && h.LANRouters != nil && h.closeChan != nil &&
-		vMapAll(h.LANRouters, func(k netip.Addr, r *Router) bool { return r != nil })
+		vMapAll(h.LANRouters, func(k netip.Addr, r *Router) bool { return r != nil && r.Addr.IP.Is6() })
 }
 
 // Every frame Parse classes as PayloadICMP4 is processed without panic.
@@ -28,10 +28,126 @@ func verif_lemma_dispatch_icmp4(h *Handler4, frame packet.Frame) {
 
 // Every frame Parse classes as PayloadICMP6 is processed without panic.
 //
-//verif:props C08
+//verif:props C08 C14
 //verif:timeout 120s
 func verif_lemma_dispatch_icmp6(h *Handler6, frame packet.Frame) {
 	vRequires(spec_handler6_ok(h) && packet.VerifSpecFrameICMP6(frame))
 	vCanary()
 	_ = h.ProcessPacket(frame)
+	// the handler's tables stay well formed (C14: learned routers are non-nil entries with an IPv6 address)
+	vAssert(spec_handler6_ok(h))
+}
+
+// ---------- ICMPv6 spoofing (C14) ----------
+
+// StartHunt: IPv4 targets are rejected, non link-local IPv6 targets are ignored; otherwise the
+// MAC is in the hunt list afterwards; a MAC already hunted changes nothing and starts no second
+// loop (idempotent); the call itself sends no frame.
+//
+//verif:props C14
+func verif_contract_icmp_spoofer_Handler6_StartHunt(h *Handler6, addr packet.Addr) (packet.HuntStage, error) {
+	vRequires(spec_handler6_ok(h))
+	vCanary()
+	was := packet.VerifSpecAddrListIndex(&h.huntList, addr.MAC)
+	n0 := h.huntList.Len()
+	w0 := vWireCount()
+	s0 := vSpawned()
+	vModifiesObj(&h.huntList)
+	vModifiesMems("elem:struct{MAC net.HardwareAddr")
+	st, err := h.StartHunt(addr)
+	s1 := vSpawned()
+	vEnsures(vWireCount() == w0)
+	switch {
+	case addr.IP.Is4():
+		vEnsures(err == packet.ErrInvalidIP && st == packet.StageNoChange && h.huntList.Len() == n0 && (s1 < 0 || s1 == s0))
+	case addr.IP.Is6() && !addr.IP.IsLinkLocalUnicast():
+		vEnsures(err == nil && st == packet.StageNoChange && h.huntList.Len() == n0 && (s1 < 0 || s1 == s0))
+	case was != -1:
+		vEnsures(err == nil && st == packet.StageHunt && h.huntList.Len() == n0 && (s1 < 0 || s1 == s0))
+	default:
+		vEnsures(err == nil && st == packet.StageHunt && h.huntList.Len() == n0+1 && (s1 < 0 || s1 == s0+1))
+	}
+	return st, err
+}
+
+// StopHunt: the entry is removed (the list shrinks by one when the MAC was hunted); no frame is sent.
+//
+//verif:props C14
+func verif_contract_icmp_spoofer_Handler6_StopHunt(h *Handler6, addr packet.Addr) (packet.HuntStage, error) {
+	vRequires(spec_handler6_ok(h))
+	vCanary()
+	was := packet.VerifSpecAddrListIndex(&h.huntList, addr.MAC)
+	n0 := h.huntList.Len()
+	w0 := vWireCount()
+	vModifiesObj(&h.huntList)
+	vModifiesMems("elem:struct{MAC net.HardwareAddr")
+	st, err := h.StopHunt(addr)
+	vEnsures(vWireCount() == w0 && err == nil)
+	if addr.IP.IsValid() && !addr.IP.IsLinkLocalUnicast() {
+		vEnsures(st == packet.StageNoChange && h.huntList.Len() == n0)
+	} else if was != -1 {
+		vEnsures(st == packet.StageNormal && h.huntList.Len() == n0-1)
+	} else {
+		vEnsures(st == packet.StageNormal && h.huntList.Len() == n0)
+	}
+	return st, err
+}
+
+func verif_inv_icmp_spoofer_Handler6_spoofLoop_2(h *Handler6, dstAddr packet.Addr) bool {
+	return spec_handler6_ok(h) && len(dstAddr.MAC) == 6 && dstAddr.IP.Is6() && (dstAddr.IP.IsLinkLocalUnicast() || dstAddr.IP.IsLinkLocalMulticast())
+}
+
+func spec_spoof6_hunting(h *Handler6, dstAddr packet.Addr) bool {
+	return spec_handler6_ok(h) && len(dstAddr.MAC) == 6 && dstAddr.IP.Is6() && (dstAddr.IP.IsLinkLocalUnicast() || dstAddr.IP.IsLinkLocalMulticast()) &&
+		h.huntList.Index(dstAddr.MAC) != -1 && !h.closed && h.Router != nil
+}
+
+// the loop that snapshots the router addresses into a fresh slice
+func verif_inv_icmp_spoofer_Handler6_spoofLoop_1(h *Handler6, dstAddr packet.Addr, list []packet.Addr) bool {
+	return spec_spoof6_hunting(h, dstAddr) && vForall(0, len(list), func(j int) bool { return list[j].IP.Is6() })
+}
+
+// the inner loop over the snapshot of router addresses: the hunt conditions were checked under the
+// lock just before (sequentially nothing changes them in between)
+func verif_inv_icmp_spoofer_Handler6_spoofLoop_3(h *Handler6, dstAddr packet.Addr, list []packet.Addr, rangeindex int) bool {
+	return spec_spoof6_hunting(h, dstAddr) && -1 <= rangeindex && rangeindex < len(list) &&
+		vForall(0, len(list), func(j int) bool { return list[j].IP.Is6() })
+}
+func verif_dec_icmp_spoofer_Handler6_spoofLoop_3(list []packet.Addr, rangeindex int) int {
+	return len(list) - rangeindex
+}
+
+// The NA spoof loop (C14, confinement): every frame it sends is a neighbour advertisement
+// (type 136) with the override flag, hop limit 255, our NIC MAC as Ethernet source and as target
+// link-layer address, addressed to the loop's own target MAC; and it is sent only while that MAC
+// is in the hunt list, the handler is not closed and a router has been learned.
+//
+//verif:props C14 C07
+//verif:timeout 120s
+func verif_lemma_spoofloop6_confined(h *Handler6, dstAddr packet.Addr) {
+	vRequires(spec_handler6_ok(h) && len(dstAddr.MAC) == 6)
+	// StartHunt only starts loops for targets without an IP or with a link-local one
+	vRequires(!dstAddr.IP.IsValid() || (dstAddr.IP.Is6() && dstAddr.IP.IsLinkLocalUnicast()))
+	host := h.session.NICInfo.HostAddr4
+	dmac := dstAddr.MAC
+	vCanary()
+	vWireEach(func(w []byte) bool {
+		if len(w) != 54+32 || w[12] != 0x86 || w[13] != 0xdd || w[20] != 58 || w[54] != 136 {
+			return false // only neighbour advertisements
+		}
+		if !(w[6] == host.MAC[0] && w[7] == host.MAC[1] && w[8] == host.MAC[2] && w[9] == host.MAC[3] && w[10] == host.MAC[4] && w[11] == host.MAC[5]) {
+			return false
+		}
+		if !(w[0] == dmac[0] && w[1] == dmac[1] && w[2] == dmac[2] && w[3] == dmac[3] && w[4] == dmac[4] && w[5] == dmac[5]) {
+			return false // only to the loop's own target
+		}
+		if w[21] != 255 || w[58]&0x20 == 0 {
+			return false // hop limit 255, override flag
+		}
+		if !(w[78] == 2 && w[79] == 1 && w[80] == host.MAC[0] && w[81] == host.MAC[1] && w[82] == host.MAC[2] && w[83] == host.MAC[3] && w[84] == host.MAC[4] && w[85] == host.MAC[5]) {
+			return false // the advertised link-layer address is ours
+		}
+		return h.huntList.Index(dmac) != -1 && !h.closed && h.Router != nil
+	})
+	h.spoofLoop(dstAddr)
 }
